@@ -48,10 +48,29 @@ structure Block where
   vtx : List Tx
 deriving DecidableEq, Repr
 
-/-- `CTxWitness.is_null`: every stack empty (vacuously true for no entries) -/
+/-- MODEL side — mirror of `CTxWitness.is_null`:
+    `for n in range(len(self.vtxinwit)): if not self.vtxinwit[n].is_null(): return False` / `return True`
+    with `CTxInWitness.is_null = CScriptWitness.is_null = (len(self.stack) == 0)`.
+    This is what `Model.Wire.serTx` branches on. -/
 def witIsNull (w : List WitStack) : Bool := w.all (·.isEmpty)
 
-def Tx.hasWitness (t : Tx) : Bool := !witIsNull t.wit
+/-- SPEC side — BIP144's condition for the extended form, stated independently of the loop above:
+    "some witness stack is non-empty".  This is what `Spec.Wire.txBytes` branches on; that the
+    model's test agrees with it is the theorem `Tx.hasWitness_eq_not_witIsNull` (not a definition). -/
+def Tx.hasWitness (t : Tx) : Bool := t.wit.any (fun s => decide (s ≠ []))
+
+theorem Tx.hasWitness_iff (t : Tx) : t.hasWitness = true ↔ ∃ s ∈ t.wit, s ≠ [] := by
+  simp [Tx.hasWitness]
+
+/-- the Python `is_null` loop decides exactly the negation of the wire format's condition -/
+theorem Tx.hasWitness_eq_not_witIsNull (t : Tx) : t.hasWitness = !witIsNull t.wit := by
+  unfold Tx.hasWitness witIsNull
+  induction t.wit with
+  | nil => rfl
+  | cons s w ih =>
+    cases s with
+    | nil => simpa using ih
+    | cons b bs => simp
 
 /-- the witness-stripped transaction `CTransaction(vin, vout, nLockTime, nVersion)` -/
 def Tx.strip (t : Tx) : Tx := { t with wit := [] }
